@@ -116,6 +116,10 @@ inline vf::CaseResult run_sessions(const vf::RunnerArgs& /*args*/, const std::ve
             prefill.push_back(sc);
         }
     }
+    // the epoch may advance at any moment of an enter (the epoch thread is not an enter or a leave): a ticker thread advances it a
+    // few times; no rule below depends on the epoch, so enter must behave exactly as without it
+    const unsigned ticks = (vf::g_decoder >= 2 && c.chance(1, 2)) ? 1 + c.range(0, 3) : 0;
+    if (ticks != 0) { tx << " epoch ticker: " << ticks << " increments\n"; }
     std::vector<std::function<void()>> bodies;
     for (unsigned t = 0; t < nt; ++t) {
         bodies.emplace_back([&, t] {
@@ -154,6 +158,14 @@ inline vf::CaseResult run_sessions(const vf::RunnerArgs& /*args*/, const std::ve
                 }
             }
             // sessions still open at the end stay open until the case is reset (a user may do that)
+        });
+    }
+    if (ticks != 0) {
+        bodies.emplace_back([&] {
+            for (unsigned i = 0; i < ticks; ++i) {
+                sched::op_boundary();
+                epoch_management::epoch_inc();
+            }
         });
     }
     S.step_limit = cap > 4 ? 2000000 : 200000;
@@ -689,6 +701,35 @@ inline vf::CaseResult run_ddl(const vf::RunnerArgs& /*args*/, const std::vector<
     std::string text;
     try {
         auto failx = [&](const std::string& sig, const std::string& m) { throw Fail{sig, m + "\n" + text}; };
+        // the internal sessions of the DDL calls: every slot release must end a claim of the same slot by the same thread (a call that
+        // leaves its session twice releases a slot another call may have claimed in between)
+        std::vector<Ev> ddl_events;
+        struct SinkGuard {
+            ~SinkGuard() {
+                g_events = nullptr;
+                vf::g_event_sink = nullptr;
+            }
+        } sink_guard; // the recorder must not outlive the vector on any exit
+        g_events = &ddl_events;
+        vf::g_event_sink = event_sink;
+        auto check_slot_discipline = [&](const char* phase) {
+            std::map<const void*, int> owner; // slot -> thread holding it
+            for (auto& ev : ddl_events) {
+                if (ev.ev == verif::EV_SLOT_CLAIM) { owner[ev.obj] = ev.thread; }
+                if (ev.ev == verif::EV_SLOT_RELEASE) {
+                    auto it = owner.find(ev.obj);
+                    ++st.checks;
+                    if (it == owner.end() || it->second != ev.thread) {
+                        g_events = nullptr;
+                        vf::g_event_sink = nullptr;
+                        failx("session_released_twice", std::string("during the concurrent ") + phase + " T" + std::to_string(ev.thread) +
+                                                            " released a session slot it does not hold" + (it == owner.end() ? " (the slot is free)" : " (another call holds it)"));
+                    }
+                    owner.erase(it);
+                }
+            }
+            ddl_events.clear();
+        };
         // phase 1: concurrent creates
         {
             std::vector<std::function<void()>> bodies;
@@ -705,6 +746,8 @@ inline vf::CaseResult run_ddl(const vf::RunnerArgs& /*args*/, const std::vector<
                 return res;
             }
         }
+        text = tx.str();
+        check_slot_discipline("creates");
         std::uint64_t pre1 = S.preemptions;
         tx << " creates:";
         for (auto r : rc_create) { tx << " " << to_string_view(r); }
@@ -755,6 +798,9 @@ inline vf::CaseResult run_ddl(const vf::RunnerArgs& /*args*/, const std::vector<
         tx << " deletes:";
         for (auto r : rc_delete) { tx << " " << to_string_view(r); }
         text = tx.str();
+        check_slot_discipline("deletes");
+        g_events = nullptr;
+        vf::g_event_sink = nullptr;
         ok = 0;
         for (auto r : rc_delete) {
             ++st.checks;
@@ -784,6 +830,8 @@ inline vf::CaseResult run_ddl(const vf::RunnerArgs& /*args*/, const std::vector<
         res.signature = f.signature;
         res.message = f.message;
     }
+    g_events = nullptr;
+    vf::g_event_sink = nullptr;
     destroy();
     reset_sessions();
     return res;
